@@ -1346,6 +1346,12 @@ package bpmn
 //@             lastval(Call, code("event|ISource.RegisterEventConsumer")) == old(wr.eventEgress)
 //@ func newHarness
 //@   prop C10
+//@   loop 1 range *process.BoundaryEvents()
+//@     invariant [only-boundary-events-attached-to-this-very-activity-are-adopted] forall a int :: off(boundaryEvents) <= a && a < off(boundaryEvents) + len(boundaryEvents) ==>
+//@               at(boundaryEvents, a) != nil && at(boundaryEvents, a).AttachedToRefField == wr.flowNodeId
+//@   loop 2 range *process.BoundaryEvents()
+//@     invariant [only-boundary-events-attached-to-this-very-activity-are-adopted] forall a int :: off(boundaryEvents) <= a && a < off(boundaryEvents) + len(boundaryEvents) ==>
+//@               at(boundaryEvents, a) != nil && at(boundaryEvents, a).AttachedToRefField == wr.flowNodeId
 //@   loop 3 range boundaryEvents
 //@     invariant node != nil
 //@     iter ensures [every-boundary-listener-listens-behind-the-harness]
